@@ -171,6 +171,14 @@ bool Symmetrizer::checkSymmetry(const Operator &in)
         if (!OperatorPresets::n(i).commutes(*OP1)) return false;
     }
 
+    // The blocks are only usable if every c^+_i maps a block into a single block,
+    // i.e. [OP1, c^+_i] = q_i c^+_i with a number q_i (OP1 is linear in the occupation numbers)
+    for(ParticleIndex i = 0; i < IndexSize; ++i) {
+        Operator comm = OP1->getCommutator(OperatorPresets::c_dag(i));
+        if (comm.isEmpty()) continue;
+        if (!(comm == OperatorPresets::c_dag(i)*comm.begin()->second)) return false;
+    }
+
     Operations.push_back(OP1);
     NSymmetries++;
     return true;
